@@ -738,7 +738,7 @@ func (s *Store) GetEntityAtPointInTimeWithInternalID(
 		currentDatasetID = binary.BigEndian.Uint32(key[10:])
 
 		// check if dataset has been deleted, or must be excluded
-		datasetDeleted := s.deletedDatasets[currentDatasetID]
+		datasetDeleted := s.isDatasetDeleted(currentDatasetID)
 		datasetIncluded := len(targetDatasetIds) == 0 // no specified datasets means no restriction - all datasets are allowed
 		if !datasetIncluded {
 			for _, id := range targetDatasetIds {
@@ -1138,7 +1138,7 @@ func (s *Store) GetRelatedAtTime(from *RelatedFrom, limit int) ([]qresult, *Rela
 					}
 				}
 
-				if s.deletedDatasets[datasetID] || !datasetIncluded {
+				if s.isDatasetDeleted(datasetID) || !datasetIncluded {
 					continue
 				}
 
@@ -1276,7 +1276,7 @@ func (s *Store) GetRelatedAtTime(from *RelatedFrom, limit int) ([]qresult, *Rela
 					}
 				}
 
-				if s.deletedDatasets[datasetID] || !datasetIncluded {
+				if s.isDatasetDeleted(datasetID) || !datasetIncluded {
 					continue
 				}
 
@@ -1400,6 +1400,15 @@ func (s *Store) getIDForURI(txn *badger.Txn, uri string) (uint64, bool, error) {
 	}
 
 	return rid, exists, nil
+}
+
+// isDatasetDeleted consults the set of deleted (not yet collected) datasets. DeleteDataset replaces that map by a
+// new one, so a contextual store asks the store it was derived from instead of the map it copied when it was created.
+func (s *Store) isDatasetDeleted(id uint32) bool {
+	if s.idParent != nil {
+		return s.idParent.isDatasetDeleted(id)
+	}
+	return s.deletedDatasets[id]
 }
 
 func (s *Store) commitIDTxn() error {
